@@ -102,8 +102,25 @@ func VerifC04_InterpBoundedWork() {
 	in := interpreter.NewInterpreter()
 	switch zzverif.Choice("program", 2) {
 	case 0:
-		route := routeOf(ast.WhileStatement{Condition: ast.LiteralExpr{Value: ast.BoolLiteral{Value: true}},
-			Body: []ast.Statement{ast.AssignStatement{Target: "x", Value: ast.LiteralExpr{Value: ast.IntLiteral{Value: zzverif.Int64("x")}}}}},
+		// every way a pass through the body can end: falling off the end, a
+		// continue (unconditional, or taken for a symbolic condition), an inner
+		// loop left by break
+		assign := ast.AssignStatement{Target: "x", Value: ast.LiteralExpr{Value: ast.IntLiteral{Value: zzverif.Int64("x")}}}
+		cond := ast.LiteralExpr{Value: ast.BoolLiteral{Value: zzverif.Bool("c")}}
+		var body []ast.Statement
+		switch zzverif.Choice("body", 5) {
+		case 0:
+			body = []ast.Statement{assign}
+		case 1:
+			body = []ast.Statement{ast.ContinueStatement{}}
+		case 2:
+			body = []ast.Statement{assign, ast.ContinueStatement{}}
+		case 3:
+			body = []ast.Statement{ast.IfStatement{Condition: cond, ThenBlock: []ast.Statement{ast.ContinueStatement{}}}, assign}
+		default:
+			body = []ast.Statement{ast.WhileStatement{Condition: ast.LiteralExpr{Value: ast.BoolLiteral{Value: true}}, Body: []ast.Statement{ast.BreakStatement{}}}, ast.ContinueStatement{}}
+		}
+		route := routeOf(ast.WhileStatement{Condition: ast.LiteralExpr{Value: ast.BoolLiteral{Value: true}}, Body: body},
 			ret(ast.LiteralExpr{Value: ast.IntLiteral{Value: 1}}))
 		zzverif.Obligation("interpreter while(true) ends")
 		_, err := in.ExecuteRoute(route, &interpreter.Request{Path: "/t", Method: "GET"})
@@ -125,4 +142,70 @@ func VerifC04_Twin() {
 	_, err := in.EvaluateExpression(ast.FunctionCallExpr{Name: "abs", Args: []ast.Expr{ast.LiteralExpr{Value: ast.IntLiteral{Value: zzverif.Int64("x")}}}}, env)
 	zzverif.Assert(err != nil, "twin-must-fail")
 	zzverif.Reach("twin")
+}
+
+// String builtins on text that is not ASCII: rune counts and byte lengths
+// differ, so an index check done in the wrong unit shows up as a Go panic.
+// Both engines, symbolic indices.
+func VerifC04_NonASCIIStrings() {
+	text := []string{"hé", "éè", "a世b", "é", "éééééééééééééééééééé"}[zzverif.Choice("text", 5)]
+	// indices up to 40: Go gives the []rune of a short string spare capacity
+	// (up to 32 elements), so slicing past the length but inside that capacity
+	// is not a crash natively although the engine (capacity = length) reports
+	// one; only crashes outside that grey zone are claimed
+	i := int64(zzverif.IntRange("i", -1, 40))
+	j := int64(zzverif.IntRange("j", -1, 40))
+	grey := func() bool {
+		m := i
+		if j > m {
+			m = j
+		}
+		return m <= 32 && i >= 0 && j >= 0
+	}
+	s := ast.LiteralExpr{Value: ast.StringLiteral{Value: text}}
+	ii := ast.LiteralExpr{Value: ast.IntLiteral{Value: i}}
+	jj := ast.LiteralExpr{Value: ast.IntLiteral{Value: j}}
+	var call ast.Expr
+	name := ""
+	switch zzverif.Choice("builtin", 4) {
+	case 0:
+		call, name = ast.FunctionCallExpr{Name: "substring", Args: []ast.Expr{s, ii, jj}}, "substring"
+	case 1:
+		call, name = ast.FunctionCallExpr{Name: "charAt", Args: []ast.Expr{s, ii}}, "charAt"
+	case 2:
+		call, name = ast.ArrayIndexExpr{Array: ast.FunctionCallExpr{Name: "split", Args: []ast.Expr{s, ast.LiteralExpr{Value: ast.StringLiteral{Value: ""}}}}, Index: ii}, "split-index"
+	default:
+		call, name = ast.FunctionCallExpr{Name: "length", Args: []ast.Expr{s}}, "length"
+	}
+	route := routeOf(ret(call))
+	func() {
+		defer func() {
+			if r := recover(); r != nil {
+				if grey() {
+					return
+				}
+				zzverif.Fail("interpreter-builtin-panics-on-non-ascii " + name)
+			}
+		}()
+		zzverif.Obligation("interpreter builtin returns")
+		interpreter.NewInterpreter().ExecuteRoute(route, &interpreter.Request{Path: "/t", Method: "GET"})
+	}()
+	bc, err := compiler.NewCompilerWithOptLevel(compiler.OptBasic).CompileRoute(route)
+	if err == nil {
+		func() {
+			defer func() {
+				if r := recover(); r != nil {
+					if grey() {
+						return
+					}
+					zzverif.Fail("vm-builtin-panics-on-non-ascii " + name)
+				}
+			}()
+			m := vm.NewVM()
+			m.SetMaxSteps(1000)
+			zzverif.Obligation("vm builtin returns")
+			m.Execute(bc)
+		}()
+	}
+	zzverif.Reach("nonascii")
 }
